@@ -62,7 +62,7 @@ fn worker(idx: usize, rx: Receiver<Cmd>, tx: Sender<(usize, String)>) {
         match rx.recv() {
             Ok(Cmd::Begin(k)) => {
                 g = if k == "inj" { Guard::Inj(InjectorPP::new()) } else { Guard::Prev(InjectorPP::prevent()) };
-                let _ = tx.send((idx, format!("acquired:{}", __verif_lock_state())));
+                let _ = tx.send((idx, format!("acquired:{}", crate::hook::lock_state())));
             }
             Ok(Cmd::Install) => {
                 if let Guard::Inj(inj) = &mut g {
@@ -198,7 +198,7 @@ fn run_schedule(sc: &Value) {
                 }
             }
             "Released" => {
-                obs = format!("lock:{}", __verif_lock_state());
+                obs = format!("lock:{}", crate::hook::lock_state());
             }
             _ => {}
         }
@@ -211,7 +211,7 @@ fn run_schedule(sc: &Value) {
     for tx in &txs {
         let _ = tx.send(Cmd::Quit);
     }
-    emit(json!({"ev":"ScheduleEnd","lock":__verif_lock_state()}));
+    emit(json!({"ev":"ScheduleEnd","lock":crate::hook::lock_state()}));
     unsafe { libc::_exit(0) };
 }
 
@@ -239,7 +239,7 @@ fn run_free(sc: &Value) {
                 let r = catch_unwind(AssertUnwindSafe(|| {
                     if kind_inj {
                         let mut inj = InjectorPP::new();
-                        emit(json!({"ev":"Acquire","thread":t,"kind":"inj","lock":__verif_lock_state()}));
+                        emit(json!({"ev":"Acquire","thread":t,"kind":"inj","lock":crate::hook::lock_state()}));
                         if rnd() % 5 != 0 {
                             let fk = thread_fake(t);
                             // the library's OS calls are perturbed (sleep inside mprotect/flush/munmap)
@@ -263,7 +263,7 @@ fn run_free(sc: &Value) {
                         drop(inj);
                     } else {
                         let _g = InjectorPP::prevent();
-                        emit(json!({"ev":"Acquire","thread":t,"kind":"prev","lock":__verif_lock_state()}));
+                        emit(json!({"ev":"Acquire","thread":t,"kind":"prev","lock":crate::hook::lock_state()}));
                         std::thread::sleep(Duration::from_micros(nap));
                         emit(json!({"ev":"Call","thread":t,"res":call_shared()}));
                         emit(json!({"ev":"ReleaseBegin","thread":t,"how":if how_panic {"panic"} else {"drop"}}));
@@ -280,7 +280,7 @@ fn run_free(sc: &Value) {
     for h in hs {
         let _ = h.join();
     }
-    emit(json!({"ev":"FreeEnd","lock":__verif_lock_state(),"res":call_shared()}));
+    emit(json!({"ev":"FreeEnd","lock":crate::hook::lock_state(),"res":call_shared()}));
 }
 
 pub fn run(script: &str, out: &str) {
